@@ -1988,5 +1988,19 @@ def call_parser_function(
         )
         return ""
 
-    return add_newline_to_expansion(fn(ctx, fn_name, args, expander))
-    # return fn(ctx, fn_name, args, expander)
+    try:
+        ret = fn(ctx, fn_name, args, expander)
+    except Exception as e:
+        # Parser functions report bad input in-band (domain/overflow errors
+        # in #expr, titles in namespaces without a talk page, missing
+        # arguments, ...) instead of aborting the whole expansion.
+        ctx.error(
+            "parser function {} failed: {}: {}".format(
+                fn_name, type(e).__name__, e
+            ),
+            sortid="parserfns/call_parser_function",
+        )
+        return '<strong class="error">Error in parser function {}</strong>'.format(
+            html.escape(fn_name)
+        )
+    return add_newline_to_expansion(ret)
